@@ -411,6 +411,8 @@ def run(ctx, tier):
     results += c16.grow(ctx, rule='C11.grow')
     results += ob['O1'] + ob['O2'] + ob['O3']
     import c02
+    results += c02.cow_free_set(ctx, rule='C11.cow.free-set')
+    import c02
     results += c02.alternate_rule(ctx, rule='C11.alternate')
     return dict(
         results=results, stats=dict(ctx.stats),
